@@ -13,6 +13,8 @@ def kindOf : String → Option CA
   | "derived_const" => some ⟨.derived, true, true, 32⟩ | "derived_ref" => some ⟨.derived, false, false, 13⟩ | "derived_sp" => some ⟨.derived, false, true, 33⟩
   | "other_var" => some ⟨.other, false, true, 3⟩ | "long_var" => some ⟨.long, false, true, 36⟩ | "float_var" => some ⟨.float, false, true, 6⟩
   | "undef" => some ⟨.undef, false, false, 0⟩
+  | "both_var" => some ⟨.both, false, true, 51⟩ | "both_ref" => some ⟨.both, false, false, 52⟩ | "both_sp" => some ⟨.both, false, true, 53⟩
+  | "both_ptr" => some ⟨.both, false, false, 52⟩ | "both_cref" => some ⟨.both, true, false, 54⟩
   | _ => none
 
 def strOfTag : Ty → Int → String
@@ -20,7 +22,7 @@ def strOfTag : Ty → Int → String
 
 def bareName : Ty → String
   | .int => "i" | .double => "d" | .bool => "b" | .long => "l" | .float => "f" | .base => "4Base"
-  | .derived => "7Derived" | .other => "5Other" | .string => "NSt7__cxx1112basic_stringIcSt11char_traitsIcESaIcEEE" | .undef => "undef"
+  | .derived => "7Derived" | .other => "5Other" | .second => "6Second" | .both => "4Both" | .string => "NSt7__cxx1112basic_stringIcSt11char_traitsIcESaIcEEE" | .undef => "undef"
 
 /-- what the function body logs for a received argument -/
 def received (p : CP) (a : CA) : String :=
@@ -36,6 +38,8 @@ def received (p : CP) (a : CA) : String :=
   | .typed .base _ => s!"base:{a.num}"
   | .typed .derived _ => s!"derived:{a.num}"
   | .typed .other _ => s!"other:{a.num}"
+  | .typed .second _ => s!"second:{a.num + 1000}"          -- the callee reads Second::b through the reference it was given
+  | .typed .both _ => s!"both:{a.num}"
   | .typed .undef _ => "?"
 
 def dispLine (line : String) : String :=
